@@ -127,6 +127,10 @@ class Explorer:
             if t is False:
                 return self.value(e.orelse, env)
             return UNKNOWN
+        if isinstance(e, (ast.ListComp, ast.SetComp, ast.DictComp, ast.GeneratorExp)) and self.on_call is not None:
+            r = self._comprehension(e, env)
+            if r is not None:
+                return r
         if isinstance(e, ast.Call):
             args = [self.value(a, env) for a in e.args]
             if self.on_call is not None:
@@ -158,6 +162,49 @@ class Explorer:
             return UNKNOWN
         # a reference to something outside the package (or to an unbound `self`) is not a value
         return UNKNOWN if isinstance(v, ExtRef) else v
+
+    def _comprehension(self, e: ast.expr, env: Dict[str, Any]) -> Any:
+        """A comprehension over sequences the path knows, element by element (so that call hooks see the
+        calls in it); None when an iterable is not known (the folder is tried then)."""
+        items: List[Any] = []
+
+        def rec(i: int, env2: Dict[str, Any]) -> Optional[bool]:
+            if i == len(e.generators):  # type: ignore[attr-defined]
+                if isinstance(e, ast.DictComp):
+                    items.append((self.value(e.key, env2), self.value(e.value, env2)))
+                else:
+                    items.append(self.value(e.elt, env2))  # type: ignore[attr-defined]
+                return True
+            g = e.generators[i]  # type: ignore[attr-defined]
+            if g.is_async:
+                return None
+            seq = self.value(g.iter, env2)
+            if not isinstance(seq, (tuple, list)) or len(seq) > 16:  # noqa: PLR2004
+                return None
+            for item in seq:
+                inner = dict(env2)
+                self._bind(g.target, item, inner)
+                keep: Optional[bool] = True
+                for c in g.ifs:
+                    t = self.test(c, inner)
+                    if t is None:
+                        return None
+                    if t is False:
+                        keep = False
+                        break
+                if keep and rec(i + 1, inner) is None:
+                    return None
+            return True
+
+        if rec(0, env) is None:
+            return None
+        if isinstance(e, ast.DictComp):
+            if not all(isinstance(k, (str, int)) for k, _ in items):
+                return UNKNOWN
+            return dict(items)
+        if isinstance(e, ast.SetComp):
+            return UNKNOWN
+        return items
 
     def test(self, t: ast.expr, env: Dict[str, Any]) -> Optional[bool]:
         o = self.oracle(t, env)
@@ -210,6 +257,36 @@ class Explorer:
         except Exception:  # noqa: BLE001
             return None
 
+    def _bind(self, t: ast.expr, v: Any, env: Dict[str, Any]) -> None:
+        """Bind an assignment / loop target to a value in `env` (in place)."""
+        if isinstance(t, ast.Name):
+            env[t.id] = v
+            return
+        if isinstance(t, (ast.Tuple, ast.List)) and isinstance(v, (tuple, list)) and len(v) == len(t.elts) and not any(
+                isinstance(x, ast.Starred) for x in t.elts):
+            for x, xv in zip(t.elts, v):
+                self._bind(x, xv, env)
+            return
+        if isinstance(t, ast.Subscript) and isinstance(t.value, ast.Name) and isinstance(env.get(t.value.id), dict):
+            # a store into a dictionary the path built itself: known key -> updated copy, else unknown
+            k = self.value(t.slice, env)
+            if isinstance(k, (str, int)) and not isinstance(k, bool):
+                d = dict(env[t.value.id])
+                d[k] = v
+                env[t.value.id] = d
+            else:
+                env[t.value.id] = UNKNOWN
+            return
+        if isinstance(t, (ast.Subscript, ast.Attribute)):
+            root = t
+            while isinstance(root, (ast.Subscript, ast.Attribute)):
+                root = root.value
+            if isinstance(root, ast.Name) and isinstance(env.get(root.id), (dict, list)):
+                env[root.id] = UNKNOWN
+        for n in ast.walk(t):
+            if isinstance(n, ast.Name) and isinstance(n.ctx, ast.Store):
+                env[n.id] = UNKNOWN
+
     # -------------------------------------------------------- statements
     def run(self, env: Dict[str, Any]) -> List[Outcome]:
         self.outcomes = []
@@ -246,12 +323,7 @@ class Explorer:
             targets = s.targets if isinstance(s, ast.Assign) else [s.target]
             env = dict(env)
             for t in targets:
-                if isinstance(t, ast.Name):
-                    env[t.id] = v
-                else:
-                    for n in ast.walk(t):
-                        if isinstance(n, ast.Name) and isinstance(n.ctx, ast.Store):
-                            env[n.id] = UNKNOWN
+                self._bind(t, v, env)
             return [env]
         if isinstance(s, ast.AugAssign):
             env = dict(env)
@@ -298,6 +370,27 @@ class Explorer:
                 eh["$handlers"] = tuple(eh.get("$handlers", ())) + (h,)
                 out2.extend(self.block(h.body, eh))
             return out2
+        if isinstance(s, ast.For) and self.enter_loops and not s.orelse:
+            seq = self.value(s.iter, env)
+            if isinstance(seq, (tuple, list)) and len(seq) <= 16:  # noqa: PLR2004
+                # a loop over a sequence the path knows: executed item by item
+                live = [env]
+                done: List[Dict[str, Any]] = []
+                for item in seq:
+                    nxt_live: List[Dict[str, Any]] = []
+                    for e0 in live:
+                        inner0 = dict(e0)
+                        self._bind(s.target, item, inner0)
+                        self._loop_exits.append([])
+                        after0 = self.block(s.body, inner0)
+                        for e1 in self._loop_exits.pop():
+                            (done if e1.get("$jump") == "break" else nxt_live).append(
+                                {k: v for k, v in e1.items() if k != "$jump"})
+                        nxt_live.extend(after0)
+                    live = nxt_live
+                    if len(live) + len(done) > self.max_paths:
+                        raise AnalysisError(f"partial evaluation of {self.fn.qualname}: too many paths")
+                return live + done
         if isinstance(s, (ast.For, ast.AsyncFor)) and self.enter_loops and not s.orelse:
             # one symbolic iteration: the loop variables are unknown; zero iterations are possible too
             self.value(s.iter, env)
@@ -311,6 +404,8 @@ class Explorer:
             merged = dict(env)
             for e2 in after:
                 for k, v in e2.items():
+                    if k == "$jump":
+                        continue
                     if k.startswith("$") and k not in merged:
                         merged[k] = v
                     elif merged.get(k, v) is not v and merged.get(k, v) != v:
@@ -334,6 +429,8 @@ class Explorer:
                     self.envs.append(env)
             return [env]
         if isinstance(s, (ast.Continue, ast.Break)) and self._loop_exits:
+            env = dict(env)
+            env["$jump"] = "break" if isinstance(s, ast.Break) else "continue"
             self._loop_exits[-1].append(env)
             return []
         if isinstance(s, (ast.Continue, ast.Break)):
